@@ -199,7 +199,10 @@ func escapeKey(doc []byte, r *plan.Rng) []byte {
 	sp := keys[r.Intn(len(keys))]
 	key := doc[sp.a:sp.b]
 	var nk []byte
-	switch r.Intn(4) {
+	switch r.Intn(5) {
+	case 4: // a very long (unknown) key: longer than the stream buffer's first fills
+		n := []int{480, 505, 511, 512, 530, 1020, 1030, 2050}[r.Intn(8)]
+		nk = append(append([]byte(nil), key...), bytes.Repeat([]byte("k"), n)...)
 	case 0: // escape one ASCII character
 		p := r.Intn(len(key))
 		if key[p] < 0x80 && key[p] != '\\' && (p == 0 || key[p-1] != '\\') {
